@@ -533,10 +533,33 @@ def run(ctx: Context):
             def iv_compared(m, lab, _salt=salt_n):
                 op, l, rr = _fact(fnorm, m, lab)
                 return op == "==" and ((l == _salt and rr in IV) or (rr == _salt and l in IV))
-            for (t, w) in find_path_avoiding(cfg, lambda x, _n=n: x is _n, gate_node=hashed_with_salt, gate_edge=iv_compared):
-                r.violation(fn, fn.loc(t.ast), "SDMF: the IV returned with the block (%s, whatever the share header said at read time) "
-                            "is neither covered by the accepted block hash nor compared with the signed IV self.verinfo[2]; "
-                            "_decode_blocks/_decrypt_segment derive the AES key from it (path: %s)" % (salt_n, w.brief()), w)
+            # path-sensitive in the share format: contradictory version tests are pruned
+            def tr(m, lab, nxt, st):
+                auth, mdmf = st
+                if m.kind in ("entry", "exit", "raise"):
+                    return st
+                if "self._version" in node_stores(m):
+                    mdmf = "?"
+                if lab != "exc" and hashed_with_salt(m):
+                    auth = True
+                if iv_compared(m, lab):
+                    auth = True
+                op, l, rr = _fact(fnorm, m, lab)
+                if op in ("==", "!=") and "self._version" in (l, rr) and ({l, rr} & {"MDMF_VERSION", "SDMF_VERSION"}):
+                    is_mdmf = (op == "==") == ("MDMF_VERSION" in (l, rr))
+                    val = "T" if is_mdmf else "F"
+                    if mdmf != "?" and mdmf != val:
+                        return None
+                    mdmf = val
+                return (auth, mdmf)
+            visited, parent = explore(cfg, (False, "?"), tr)
+            for (nid, st) in sorted(visited, key=lambda x: (x[0], str(x[1]))):
+                if cfg.nodes[nid] is n and not st[0]:
+                    w = witness(cfg, parent, (nid, st))
+                    r.violation(fn, fn.loc(n.ast), "SDMF: the IV returned with the block (%s, whatever the share header said at read time) "
+                                "is neither covered by the accepted block hash nor compared with the signed IV self.verinfo[2]; "
+                                "_decode_blocks/_decrypt_segment derive the AES key from it (path: %s)" % (salt_n, w.brief()), w)
+                    break
             r.count(len(cfg.nodes))
 
     # -- 7. tree roots ---------------------------------------------------------
@@ -785,8 +808,7 @@ def run(ctx: Context):
             c = calls_at(n, "_populate_encprivkey")[0]
             r.require(bool(c.args) and isinstance(c.args[0], ast.Name) and c.args[0].id == enc, fn, fn.loc(c),
                       "installs %s as encrypted key, not the validated one" % (src(fn, c.args[0]) if c.args else "?"))
-            for (t, w) in find_path_avoiding(cfg, lambda x, _n=n: x is _n, gate_node=lambda m: m in pk_nodes):
-                pass   # order between the two stores is irrelevant; both are behind the same None test (checked next)
+            # order between the two stores is irrelevant; both must be behind the same None test
             nm = [a.id for a in [calls_at(p, "_populate_privkey")[0].args[0] for p in pk_nodes] if isinstance(a, ast.Name)]
             if nm:
                 def notnone2(m, lab, _v=nm[0]):
